@@ -39,9 +39,14 @@ func TestVerifC18E2E(t *testing.T) {
 				t.Fatal(err)
 			}
 			c := cr.c.(*collector)
+			early := ""
+			if len(flags) > 6 && flags[6] == '1' {
+				// scrape before the exporter is registered with a MeterProvider (reader.Collect: ErrReaderNotRegistered)
+				early = c18Gather(c) + " || "
+			}
 			rm := c18ParseData(c18ParseKVs(resTok), c18Groups(f[5:]))
 			c.reader = &c18Reader{Reader: c.reader, rm: rm}
-			obs := c18Gather(c)
+			obs := early + c18Gather(c)
 			data := c18Data(rm, true)
 			sep := ""
 			if data != "" {
@@ -61,13 +66,17 @@ func TestVerifC18E2E(t *testing.T) {
 	for i := 0; i < 3; i++ {
 		c18Scenario(out, g, ctx, "f28", "f28")
 	}
-	// a few F34 scenarios on every run (the random stream also produces the pattern now and then)
+	// a few F34 scenarios on every run (the random stream also produces the pattern)
 	for i := 0; i < 3; i++ {
 		c18Scenario(out, g, ctx, "f34", "f34")
 	}
 	// a few scenarios with an exemplar client_golang refuses (> 128 runes) on every run
 	for i := 0; i < 4; i++ {
 		c18Scenario(out, g, ctx, "ex", "ex")
+	}
+	// a few scenarios that are scraped once before the exporter is registered with a MeterProvider
+	for i := 0; i < 4; i++ {
+		c18Scenario(out, g, ctx, "early", "early")
 	}
 	for i := 0; i < n; i++ {
 		c18Scenario(out, g, ctx, "rnd", "")
@@ -85,10 +94,12 @@ type c18Inst struct {
 var c18KindNames = []string{"counter", "updown", "hist", "gauge", "ocounter", "oupdown", "ogauge", "expo"}
 
 // mode: "" random; "f28" one exponential histogram, one measurement, default MaxScale 20 (known finding F28);
-// "f34" two instruments of the same family and type, first description empty, second not (known finding F34).
+// "f34" two instruments of the same family and type, first description empty, second not (F34, repaired in /repo de0451a:
+// the empty first description wins and Gather succeeds).
 func c18Scenario(out *vOut, g *c18Gen, ctx context.Context, gen string, mode string) {
 	forceF28 := mode == "f28"
 	forceF34 := mode == "f34"
+	forceEarly := mode == "early" // a scrape before NewMeterProvider(WithReader(exporter)), then the normal scenario
 	forceEx := mode == "ex" // sampled measurements on a counter/histogram whose View drops a long attribute: exemplar refused
 	r := g.r
 	legacy := r.Intn(3) == 0
@@ -238,6 +249,16 @@ func c18Scenario(out *vOut, g *c18Gen, ctx context.Context, gen string, mode str
 	}
 	tap := &c18Tap{Reader: cr.c.(*collector).reader}
 	cr.c.(*collector).reader = tap
+	early := ""
+	if forceEarly || r.Intn(8) == 0 {
+		// Prometheus scrapes while the application is still starting: the exporter is not registered with a
+		// MeterProvider yet (reader.Collect returns ErrReaderNotRegistered). Nothing may be exposed — and nothing cached.
+		flags += "1"
+		early = c18Gather(cr.c) + " || "
+		if forceEarly && len(res) == 0 {
+			res = append(res, attribute.String("service.name", "svc"))
+		}
+	}
 	r2 := sdkmetric.NewManualReader()
 	mp := sdkmetric.NewMeterProvider(sdkmetric.WithReader(exp), sdkmetric.WithReader(r2),
 		sdkmetric.WithResource(resource.NewSchemaless(res...)), sdkmetric.WithView(views...))
@@ -315,7 +336,7 @@ func c18Scenario(out *vOut, g *c18Gen, ctx context.Context, gen string, mode str
 		out.Line("e2e %s %s %s - => reader-error", gen, flags, nsTok)
 		return
 	}
-	obs := c18Gather(cr.c)
+	obs := early + c18Gather(cr.c)
 	data := c18Data(&rm, false)
 	if tap.last != "" {
 		// input part = what the exporter's own reader delivered (incl. its exemplars); apart from the exemplars it must be
